@@ -94,6 +94,9 @@ pub trait Inst {
     fn reset(self: Box<Self>) -> Box<dyn Inst>;
     fn clone_box(&self) -> Box<dyn Inst>;
     fn gutsrt(&self) -> Box<dyn Inst>;
+    fn as_any(&self) -> &dyn std::any::Any;
+    /// `Clone::clone_from(self, other)`; `false` if `other` is not of the same concrete type
+    fn clone_from_inst(&mut self, other: &dyn Inst) -> bool;
 }
 
 /// what the harness needs from a concrete filter type
@@ -132,6 +135,18 @@ impl<K: FK> Inst for K {
     }
     fn clone_box(&self) -> Box<dyn Inst> {
         Box::new(self.clone())
+    }
+    fn as_any(&self) -> &dyn std::any::Any {
+        self
+    }
+    fn clone_from_inst(&mut self, other: &dyn Inst) -> bool {
+        match other.as_any().downcast_ref::<K>() {
+            Some(o) => {
+                Clone::clone_from(self, o);
+                true
+            }
+            None => false,
+        }
     }
     fn gutsrt(&self) -> Box<dyn Inst> {
         Box::new(self.gutsrt_())
@@ -289,16 +304,22 @@ fk!([const N: usize] Delay<Tracked, N>, Tracked => Tracked {});
 
 // ---- stateless / scalar-state filters ---------------------------------------------------
 
-fk!([] Differentiate<Q>, Q => Q {
-    fn guts_(&mut self, field: &str) -> String {
-        match field { "value" => unsafe { StateMut::state_mut(self) }.value.r(), _ => "unsupported".to_string() }
-    }
-});
-fk!([] Integrate<Q>, Q => Q {
-    fn guts_(&mut self, field: &str) -> String {
-        match field { "value" => unsafe { StateMut::state_mut(self) }.value.r(), _ => "unsupported".to_string() }
-    }
-});
+macro_rules! diffint_fk {
+    ($t:ty) => {
+        fk!([] Differentiate<$t>, $t => $t {
+            fn guts_(&mut self, field: &str) -> String {
+                match field { "value" => unsafe { StateMut::state_mut(self) }.value.r(), _ => "unsupported".to_string() }
+            }
+        });
+        fk!([] Integrate<$t>, $t => $t {
+            fn guts_(&mut self, field: &str) -> String {
+                match field { "value" => unsafe { StateMut::state_mut(self) }.value.r(), _ => "unsupported".to_string() }
+            }
+        });
+    };
+}
+diffint_fk!(Q);
+diffint_fk!(f64);
 
 impl IO for Kalman<Q> {
     type In = Q;
@@ -700,6 +721,8 @@ fn build_inner(kind: &str, kv: &KV, wrap: Option<&str>) -> Box<dyn Inst> {
         }
         ("delay", _) => with_n!(kv_n(kv, "N"), N => finish_q(Delay::<Q, N>::default(), wrap)),
         ("meanvar", _) => with_n!(kv_n(kv, "N"), N => finish(MeanVariance::<Q, N>::default(), wrap)),
+        ("differentiate", "f64") => finish(Differentiate::<f64>::default(), wrap),
+        ("integrate", "f64") => finish(Integrate::<f64>::default(), wrap),
         ("differentiate", _) => finish_q(Differentiate::<Q>::default(), wrap),
         ("integrate", _) => finish_q(Integrate::<Q>::default(), wrap),
         ("kalman", _) => finish_q(
